@@ -12,7 +12,10 @@ scalar-independent, and `Lemmas/SimplifyGeom.lean`, `Lemmas/SimplifyVwOrd.lean`,
 `distance_to_segment`, `triangle_area`, `aire_visval` (util/geometry.py), `Operator.ARGMIN`, as the code is after ec611a5
 and 1a5eeec — and `Model/SimplifyTrack.lean` — the same two functions and the dispatcher `simplify(track, tolerance, mode)`
 on the `Track` **object**: feature rows of the observations, feature dict, `uid`/`tid`/`base`, the temporary `'@aire'`
-column, `Track.__add__` and `removeObs` of C04. T8/T9 tie the second to the first.
+column, `Track.__add__` and `removeObs` of C04. T8/T9 tie the second to the first. The same file models the attribute
+`no_data_value` that the readers set (`simplifyN`: never read; `None` on a Douglas–Peucker result, copied by Visvalingam) and
+`Network.simplify` (`netSimplify`: `simplify` on every edge geometry). T12 (`vw_any`) is Visvalingam with **no** hypothesis on
+the areas.
 
 A fix is `⟨tag, x, y⟩`; *sublist* is about fixes (tag included), i.e. about observations.
 `douglasPeucker … = some out` means "the call returns `out`"; `none` is Python's unbounded recursion.
@@ -503,6 +506,16 @@ example : vwTrk (10 ^ 300 : Rat) (1 / 2)
     .ok ⟨[⟨⟨0, 0, 0⟩, [some 5]⟩, ⟨⟨1, 1, 1⟩, [some 6]⟩, ⟨⟨2, 2, 0⟩, [some 7]⟩], ⟨0, 0, none⟩, [("w", 0)]⟩ := by
   decide +kernel
 
+/-- outside `FreshTable` (2): observations that carry more feature values than the dict names — `Track(other.getObsList())`, in
+particular **every Douglas–Peucker result of a track with features** (T8: the rows travel, the dict is empty). `createAnalyticalFeature`
+gives `'@aire'` the column `len(dico) = 0` but appends its slot at the end of the rows, so the areas overwrite the first value and
+`removeAnalyticalFeature` deletes it: every observation comes back without its first value and with a trailing `0.0`
+(class `vw-feature-values-without-dict-entry` of the harness; the input's own observations are untouched, deep copy). -/
+example : vwTrk (10 ^ 300 : Rat) (1 / 2)
+      ⟨[⟨⟨0, 0, 0⟩, [some 10, some 5]⟩, ⟨⟨1, 1, 1⟩, [some 11, some 5]⟩, ⟨⟨2, 2, 0⟩, [some 12, some 5]⟩], ⟨0, 0, none⟩, []⟩ =
+    .ok ⟨[⟨⟨0, 0, 0⟩, [some 5, some 0]⟩, ⟨⟨1, 1, 1⟩, [some 5, some 0]⟩, ⟨⟨2, 2, 0⟩, [some 5, some 0]⟩], ⟨0, 0, none⟩, []⟩ := by
+  decide +kernel
+
 /-- Douglas–Peucker on a track `(0,0), (2,3), (4,0)` with two features (`sqrtTab` is right on the values met: 0, 9, 16).
 Tolerance 4 (> 3, the distance of the middle fix to the chord): the two ends — the rows travel, the dict is empty,
 `uid/tid/base` are the input's … -/
@@ -523,5 +536,33 @@ example : dpTrk sqrtTab 3 demoTrk2 =
 example : dpTrk sqrtTab 3 ⟨[⟨⟨0, 0, 0⟩, [some 0]⟩, ⟨⟨1, 4, 3⟩, [some 1]⟩], ⟨7, 9, some 5⟩, [("tag", 0)]⟩ =
     some ⟨[⟨⟨0, 0, 0⟩, [some 0]⟩, ⟨⟨1, 4, 3⟩, [some 1]⟩], ⟨0, 0, none⟩, []⟩ := by
   decide +kernel
+
+/-! ### a track made by a reader: `no_data_value` and placeholder fixes -/
+
+/-- `sqrt` on the values met below: the chord `(-4,-4) … (0,-1)` has length 5, the middle fix `(-4,-1)` is at distance 12/5 -/
+def sqrtTab2 (x : Rat) : Rat := if x = 25 then 5 else if x = 144 / 25 then 12 / 5 else if x = 0 then 0 else x
+
+/-- a three-fix track whose first fix is a reader's placeholder at `no_data_value = -4` (`tid = 7`) -/
+def demoTrkN : TrkN Rat :=
+  ⟨⟨[⟨⟨0, -4, -4⟩, []⟩, ⟨⟨1, -4, -1⟩, []⟩, ⟨⟨2, 0, -1⟩, []⟩], ⟨0, 7, none⟩, []⟩, some (-4)⟩
+
+/-- `simplify(track, 3, MODE_SIMPLIFY_DOUGLAS_PEUCKER)`: the placeholder is the first observation and stays; the result is a new
+`Track`, its `no_data_value` is `None` … -/
+example : simplifyN sqrtTab2 (10 ^ 300) demoTrkN 3 1 =
+    .ok ⟨⟨[⟨⟨0, -4, -4⟩, []⟩, ⟨⟨2, 0, -1⟩, []⟩], ⟨0, 7, none⟩, []⟩, none⟩ := by decide +kernel
+
+/-- … with tolerance 2 (< 12/5) the middle fix is kept as well … -/
+example : (simplifyN sqrtTab2 (10 ^ 300) demoTrkN 2 1).map (fun O => O.trk.pts.length) = .ok 3 := by decide +kernel
+
+/-- … and Visvalingam (area of the middle fix 6 ≤ 3²) returns the copy's attribute -/
+example : simplifyN sqrtTab2 (10 ^ 300) demoTrkN 3 2 =
+    .ok ⟨⟨[⟨⟨0, -4, -4⟩, []⟩, ⟨⟨2, 0, -1⟩, []⟩], ⟨0, 7, none⟩, []⟩, some (-4)⟩ := by decide +kernel
+
+/-- `Network.simplify` on two edges -/
+example : (netSimplify sqrtTab2 (10 ^ 300) [demoTrkN, demoTrkN] 3 2).map List.length = .ok 2 := by decide +kernel
+
+/-- T12 at work outside T6's hypothesis (`big = 1`, the only area is 8): the first observation is lost (T6'), the last one and two
+observations are kept -/
+example : (visvalingam (1 : Rat) 1 [⟨0, 0, 0⟩, ⟨1, 2, 4⟩, ⟨2, 4, 0⟩]).getLast? = some ⟨2, 4, 0⟩ := by decide +kernel
 
 end TV.C16
